@@ -1,7 +1,7 @@
 // C16 conformance driver, engine.  Executes the batched / AVX2 / AVX512 add, sub, mul overloads of Goldilocks3 (library built
 // from the tree under check) through the generated call sites and records one ndjson event per call.
 //
-// case line:  <ci> <row id> <seed> <mode> <sa> <sb> <sc> <ia> <ib> <ic> [<alias: none|a|b>]
+// case line:  <ci> <row id> <seed> <mode> <sa> <sb> <sc> <ia> <ib> <ic> [<alias: none|a|b> [<history: -|letters> [<share: 0|1>]]]
 //             strides 0 when the row has no such parameter; index lists "o0,o1,..." or "-"; mode 0: operand coefficients are
 //             vh::Rng::word() (all representations), 1: half of them from a corner list.
 //             alias a / b: the result is the SAME object as that operand (register rows: the generated in-place call site
@@ -9,7 +9,11 @@
 //             addressed exactly like the result).  Operands are read back BEFORE the call.
 //             An input stride >= 2^24 gets a sparse arena: the whole extent is reserved PROT_NONE (MAP_NORESERVE), only the
 //             pages that hold designated cells are accessible, the end of the extent still abuts an inaccessible page.
-// Per case the call is executed twice on identical operand values:
+//             history: one letter per call (mutate_vals): the calls are made one after the other in this process and thread on
+//             the SAME objects (arenas, index lists, precomputed sums, result arena, register context keep their addresses),
+//             whose contents are overwritten in place between the calls; one l16 event per call (hs = position, hn = length).
+//             share 1: operands a and b are the same array (pa == pb), one arena ending at the larger footprint.
+// Per case the call (the whole history) is executed twice on identical operand values:
 //   * every array operand lives in an exact-extent arena (vh::galloc: the cell after the last designated one is an
 //     inaccessible page), index lists and the precomputed sums too; undesignated cells hold run-specific garbage that
 //     differs between the two runs; the result arena is pre-filled with P (run 1) and ~P (run 2), so a cell written with
